@@ -12,6 +12,7 @@ import Bermuda.Model.Resample
 import Bermuda.Spec.C17
 import Bermuda.Lemmas.Resample
 import Bermuda.Lemmas.ResampleSpec
+import Bermuda.Lemmas.ResampleExt
 namespace Bermuda.Properties.C17
 open Bermuda Bermuda.Resample
 
@@ -337,5 +338,55 @@ theorem spec_moment {t out : List Cell} {fields : List String} {distOk : Bool}
       ∀ j, d.length ≤ (draws j f).length) :
     Spec.C17.momentOk t out fields = true :=
   momentOk_model h hnd hk hs hwf hlen
+
+/-! ### the guards of `maximum_entropy_ensemble` (bootstrap.py:250-258): `meEnsembleRaw` -/
+
+/-- a single value comes back unchanged, whatever it is (also `[None]`) -/
+theorem meEnsembleRaw_single (x : Val) (qs : List Rat) : meEnsembleRaw [x] qs = .ok [x] := rfl
+
+/-- a constant series (every later element `==` the first; `[None, None]` included) comes back unchanged -/
+theorem meEnsembleRaw_const (x y : Val) (rest : List Val) (qs : List Rat)
+    (h : (y :: rest).all (scalarEq x) = true) : meEnsembleRaw (x :: y :: rest) qs = .ok (x :: y :: rest) := by
+  simp only [meEnsembleRaw, h, if_true]
+
+/-- **refusal**: a non-constant series that contains `None` is refused with ValueError -/
+theorem meEnsembleRaw_refuses_none (x y : Val) (rest : List Val) (qs : List Rat)
+    (hc : (y :: rest).all (scalarEq x) = false) (hn : Val.none ∈ x :: y :: rest) :
+    meEnsembleRaw (x :: y :: rest) qs = .error .valueError := by
+  have : (x :: y :: rest).any (fun v => v == Val.none) = true := by
+    rw [List.any_eq_true]; exact ⟨_, hn, by simp⟩
+  simp only [meEnsembleRaw, hc, this, if_true, Bool.false_eq_true, if_false]
+
+/-- on a series of numbers (what the bootstrap hands in) the wrapper IS the existing model -/
+theorem meEnsembleRaw_eq_meEnsemble (xs : List Val) (qs : List Rat) (h : ∀ v ∈ xs, isNum v = true) :
+    meEnsembleRaw xs qs = meEnsemble xs qs := by
+  match xs, h with
+  | [], _ => rfl
+  | [x], _ => rfl
+  | x :: y :: rest, h =>
+    obtain ⟨p, hp⟩ := numOf_isNum (h x (by simp))
+    obtain ⟨ns, hns⟩ := mapM_isNum (y :: rest) (fun w hw => h w (by simp [List.mem_cons] at hw ⊢; exact Or.inr hw))
+    have hall := all_scalarEq_nums x p hp (y :: rest) ns hns
+    have hm : mapMExcept numOf (x :: y :: rest) = .ok (p :: ns) := by
+      simp only [mapMExcept] at hns ⊢
+      rw [hp]; simp only []
+      rw [hns]
+    have hnone : (x :: y :: rest).any (fun v => v == Val.none) = false := by
+      rw [Bool.eq_false_iff]; intro hh
+      rw [List.any_eq_true] at hh
+      obtain ⟨v, hv, hv2⟩ := hh
+      have := h v hv
+      simp at hv2; subst hv2; simp [isNum] at this
+    unfold meEnsembleRaw meEnsemble
+    simp only [hm, hnone, Bool.false_eq_true, if_false]
+    by_cases hc : (y :: rest).all (scalarEq x) = true
+    · have : (p :: ns).all (fun q => q == (p :: ns).headD 0) = true := by
+        simp only [List.headD_cons, List.all_cons, beq_self_eq_true, Bool.true_and]
+        rw [← hall]; exact hc
+      simp only [hc, if_true, this]
+    · have : (p :: ns).all (fun q => q == (p :: ns).headD 0) = false := by
+        simp only [List.headD_cons, List.all_cons, beq_self_eq_true, Bool.true_and]
+        rw [← hall]; simpa using hc
+      simp only [hc, this, Bool.false_eq_true, if_false]
 
 end Bermuda.Properties.C17
